@@ -97,6 +97,7 @@ Apply(ds, c) ==
          IF Has(ds, c.s) /\ ds.es[c.s][c.t] # Absent THEN Ok([ds EXCEPT !.es[c.s][c.t] = [body |-> c.b]], "ok") ELSE Err(ds, "NotFound")
     [] c.rpc = "update_metadata" ->       \* all or nothing; c.tm : Ids -> metadata update (NoMeta = trial not named)
          IF ~Has(ds, c.s) THEN Err(ds, "NotFound")
+         ELSE IF c.bad THEN Err(ds, "Invalid")       \* one more update names a malformed trial id ("0")
          ELSE IF \E t \in Ids : c.tm[t] # NoMeta /\ ~HasT(ds, c.s, t) THEN Err(ds, "NotFound")
          ELSE Ok([ds EXCEPT !.study[c.s].meta = Merge(@, c.sm),
                             !.trial[c.s] = [t \in Ids |-> IF c.tm[t] = NoMeta THEN @[t]
@@ -141,9 +142,11 @@ AGetEs       == En("get_es") /\ \E s \in Studies, t \in Ids : Do([rpc |-> "get_e
 AUpdateEs    == En("update_es") /\ \E s \in Studies, t \in Ids, b \in Bodies :
                   /\ (Has(ds, s) => ds.es[s][t] # Absent)
                   /\ Do([rpc |-> "update_es", s |-> s, t |-> t, b |-> b])
-AUpdateMetadata == En("update_metadata") /\ \E s \in Studies, sm \in Metas, tm \in [Ids -> Metas] :
+\* bad: the call also names a malformed trial id; which error wins when a well-formed id is missing too is left open
+AUpdateMetadata == En("update_metadata") /\ \E s \in Studies, sm \in Metas, tm \in [Ids -> Metas], bad \in BOOLEAN :
                   /\ (sm # NoMeta \/ \E t \in Ids : tm[t] # NoMeta)
-                  /\ Do([rpc |-> "update_metadata", s |-> s, sm |-> sm, tm |-> tm])
+                  /\ (bad => \A t \in Ids : tm[t] # NoMeta => HasT(ds, s, t))
+                  /\ Do([rpc |-> "update_metadata", s |-> s, sm |-> sm, tm |-> tm, bad |-> bad])
 
 Next == \/ ACreateStudy \/ ALoadStudy \/ AUpdateStudy \/ ADeleteStudy \/ AListStudies \/ ACreateTrial \/ AGetTrial
         \/ AUpdateTrial \/ AListTrials \/ ADeleteTrial \/ AMaxTrialId \/ ACreateSop \/ AGetSop \/ AUpdateSop
